@@ -122,6 +122,11 @@ def batch_c09(tier, sd):
             p['requires'] = [a, 'ctx', b] + list(p['requires'])
         base.append(d)
     base = [d for d in base if ds.accepts(d)]
+    # the requested type supplied only by a field of an expanded struct (valid; cycles / duplicates / orphans planted below)
+    fr = []
+    for d in base:
+        fr += ds.field_ret_variants(d)
+    base += rng.sample(fr, min(len(fr), 6 if quick else 60))
     out = []
     for d in base:
         out.append(d)
@@ -191,6 +196,9 @@ def main_c09_c10(prop, tier):
                 if len({m['id'] for m in members}) < k:
                     continue
                 groups.append(ds.make_group('m%03d' % g, members))
+            # two declarations of one file sharing their provider functions under different wrappers
+            for g in range(6 if tier == 'quick' else 40):
+                groups.append(ds.shared_group(rng, 'h%03d' % g, rng.choice(valid)))
             gdecls = [d for grp in groups for d in grp]
             if gdecls:
                 groot = pl.make_scratch(w, gdecls, 'multi')
